@@ -38,7 +38,8 @@ async def emit_case(case):
             except Exception:  # noqa
                 pass
             sent.clear()
-        c.configure(credentials=creds)
+        if case.get("via") != "reconfigure":
+            c.configure(credentials=creds)
     else:
         c = Client("192.0.2.1", creds, sender=sender, context_name=bytes(case.get("ctxname", b"")), engine_id=bytes(case.get("ctxengine", b"")))
     import puresnmp.api.raw, puresnmp_plugins.security.usm  # noqa  (so that patched_clock sees every holder of get_request_id)
@@ -53,27 +54,30 @@ async def emit_case(case):
         from puresnmp import PyWrapper
         c = PyWrapper(c)
         oids = [("." if case.get("dot") else "") + ".".join(map(str, o)) for o in case["oids"]]
+    import contextlib
+    block = c.reconfigure(credentials=creds) if case.get("via") == "reconfigure" else contextlib.nullcontext()
     try:
-        if op == "get":
-            await c.get(oids[0])
-        elif op == "multiget":
-            await c.multiget(oids)
-        elif op == "getnext":
-            await c.getnext(oids[0])
-        elif op == "multigetnext":
-            await c.multigetnext(oids)
-        elif op == "set":
-            await c.set(oids[0], mk_x690_raw(*vals[0]))
-        elif op == "multiset":
-            await c.multiset({o: mk_x690_raw(*v) for o, v in zip(oids, vals)})
-        elif op == "bulkget":
-            await c.bulkget(oids[:case["nr"]], oids[case["nr"]:], case["mr"])
-        elif op == "walk":
-            async for _ in c.multiwalk(oids):
-                break
-        elif op == "bulkwalk":
-            async for _ in c.bulkwalk(oids, bulk_size=case["mr"]):
-                break
+      with block:
+          if op == "get":
+              await c.get(oids[0])
+          elif op == "multiget":
+              await c.multiget(oids)
+          elif op == "getnext":
+              await c.getnext(oids[0])
+          elif op == "multigetnext":
+              await c.multigetnext(oids)
+          elif op == "set":
+              await c.set(oids[0], mk_x690_raw(*vals[0]))
+          elif op == "multiset":
+              await c.multiset({o: mk_x690_raw(*v) for o, v in zip(oids, vals)})
+          elif op == "bulkget":
+              await c.bulkget(oids[:case["nr"]], oids[case["nr"]:], case["mr"])
+          elif op == "walk":
+              async for _ in c.multiwalk(oids):
+                  break
+          elif op == "bulkwalk":
+              async for _ in c.bulkwalk(oids, bulk_size=case["mr"]):
+                  break
     except Exception as e:  # noqa   the reply is irrelevant here; only what was emitted counts
         err = exc_name(e)
     finally:
